@@ -533,8 +533,9 @@ class World:
                 info['outcome'] = 'commit-failed'
                 info['error'] = repr(ex)
         else:
-            info['outcome'] = 'committed' if info['n_items'] else 'empty'
-            if info['error'] is not None or info.get('propagating'):
+            swallowed = 'n_items' not in info    # the body was left by an exception that never arrived here
+            info['outcome'] = 'committed' if (info.get('n_items') or (swallowed and m.transaction is not prev_result)) else 'empty'
+            if swallowed or info['error'] is not None or info.get('propagating'):
                 # an exception left the body of the `with` (a call the API rejected and the application did not catch, or the
                 # application's own exception), but the transaction manager did not let it through: the body was executed
                 # half-way and the transaction went on as if nothing had happened
